@@ -30,6 +30,7 @@ CONSTANTS
     Msgs,           \* commit messages (keys)
     Subject(_),     \* message -> its first line
     MaxCommits,     \* bound on the number of commits in one behaviour
+    FreshContent,   \* "" = a new file may get any content; otherwise new files get exactly this content (smaller instances)
     ArgLists,       \* set of path-argument sequences used by add / rm / restore
     Cmds            \* event kinds enabled in this instance
 
@@ -258,7 +259,12 @@ Step(s, e, n) ==
 
 Base(ev, cls) == [ev |-> ev, cls |-> cls, dom |-> TRUE, tz |-> 540, t0 |-> 1000 + nk, t1 |-> 1000 + nk]
 EnvEvents ==
-    (IF "write" \in Cmds THEN {Base("write", "env") @@ [p |-> p, c |-> c] : p \in {q \in Paths : CanWrite(st, q)}, c \in ContentSet} ELSE {})
+    (IF "write" \in Cmds
+       THEN UNION {{Base("write", "env") @@ [p |-> p, c |-> c] :
+                       c \in (IF FreshContent = "" THEN ContentSet
+                              ELSE IF p \in DOMAIN st.wt THEN ContentSet \ {st.wt[p]} ELSE {FreshContent})}
+                   : p \in {q \in Paths : CanWrite(st, q)}}
+       ELSE {})
     \cup (IF "remove" \in Cmds THEN {Base("remove", "env") @@ [p |-> p] : p \in DOMAIN st.wt} ELSE {})
     \cup (IF "rmdir" \in Cmds THEN {Base("rmdir", "env") @@ [p |-> d] : d \in DirsOfWt(st.wt)} ELSE {})
 PathEvents ==
